@@ -145,7 +145,7 @@ def rs2v(kernel=None):
 
 def coq_make(targets, timeout=1500):
     """Full .vo build (never -vos) of the given targets through the generated Makefile."""
-    missing = [g for g in ("CheckExcess.v", "ExitOps.v", "OptionTables.v") if not os.path.exists(os.path.join(COQ, "gen", g))]
+    missing = [g for g in ("CheckExcess.v", "ExitOps.v", "OptionTables.v", "SemiRule.v") if not os.path.exists(os.path.join(COQ, "gen", g))]
     if missing:
         os.makedirs(os.path.join(COQ, "gen"), exist_ok=True)
         rs2v()
@@ -207,7 +207,14 @@ def build_ml():
         ok, out = coq_make(["theories/Extract.vo"])
         if not ok:
             raise RuntimeError("extraction failed:\n" + out[-4000:])
+        # kernels regenerated by rs2v are extracted apart: a kernel that no longer compiles must only fail the checks built on it
+        okg, outg = coq_make(["theories/ExtractGen.vo"])
+        if not okg:
+            for f in ("SemiGen.ml", "SemiGen.mli", "drv_semi"):
+                try: os.remove(os.path.join(MLDIR, f))
+                except OSError: pass
         sh([os.path.join(ROOT, "ml", "build.sh")])
+        return okg
 
 def driver(name):
     return os.path.join(MLDIR, name)
